@@ -164,6 +164,23 @@ def run_c15(pid, spec, tier, seed, replay=None):
     return {"violations": viols, "crashes": crashes, "coverage": cov, "trace_files": traces}
 
 
+def run_c06(pid, spec, tier, seed, replay=None):
+    """C06: tunnel-level scenarios (correct and overrunning peers) + the sender core (gated replay and a free-running
+    stress of the real sender against a credit-granting peer, both judged by FlowSenderMon)"""
+    from . import flow
+    res = run(pid, dict(spec, runner=None), tier, seed, replay)
+    if replay:
+        return res
+    binary = orch.build_harness()
+    d = orch.fresh_dir("run-%s-%s-core" % (pid, tier))
+    viols, cov, states, trans = flow.run(tier, binary, d, stress=600 if tier == "quick" else 10000, seed=seed)
+    res["violations"] += viols
+    res["coverage"].update(cov)
+    res["coverage"]["states"] += states
+    res["coverage"]["transitions"] += trans
+    return res
+
+
 def run_c17(pid, spec, tier, seed, replay=None):
     """C17: single-tunnel identity observations (TunnelMon) plus RPCs spread over several reverse tunnels (RegistryMon)"""
     res = run(pid, dict(spec, runner=None), tier, seed, replay)
@@ -189,7 +206,7 @@ def run_c05(pid, spec, tier, seed, replay=None):
         return res
     binary = orch.build_harness()
     d = orch.fresh_dir("run-%s-%s-core" % (pid, tier))
-    viols, cov, states, trans = flow.run(tier, binary, d)
+    viols, cov, states, trans = flow.run(tier, binary, d, stress=600 if tier == "quick" else 10000, seed=seed)
     res["violations"] += viols
     res["coverage"].update(cov)
     res["coverage"]["states"] += states
@@ -215,9 +232,10 @@ PROPS = {
             "quick": lambda s: gen.fam_data(s, 48) + gen.fam_cancel(s, 4, policies=("eager", "slowcli"), fcs=("fc",)) + gen.fam_indep(s, 4, policies=("random",))
                                + gen.fam_free(s, 48) + [x for x in gen.fam_hostile_srv(s) if "-off-" in x["name"] or "-legacy-" in x["name"]][:60] + gen.fam_neg(s)[:40],
             "thorough": lambda s: gen.fam_data(s, 400, big=True) + gen.fam_cancel(s, 0) + gen.fam_indep(s, 0) + gen.fam_life(s, 12) + gen.fam_gates(s, 4)},
-    "C06": {"level": "model_checking", "model_replay": (30, 300),
-            "quick": lambda s: gen.fam_data(s, 64),
-            "thorough": lambda s: gen.fam_data(s, 600, big=True)},
+    "C06": {"level": "model_checking", "model_replay": (30, 300), "runner": run_c06, "hang": True,
+            "also": ["C09_SrvStreamLevel", "C09_CliStreamLevel", "C09_BoundedBuffer", "C05_CreditConserved", "C05_CreditExact"],
+            "quick": lambda s: gen.fam_data(s, 48) + gen.fam_flow(s, 16) + [x for x in gen.fam_hostile_srv(s) + gen.fam_hostile_cli(s) if "overrun" in x["name"]],
+            "thorough": lambda s: gen.fam_data(s, 600, big=True) + gen.fam_flow(s, 200) + gen.fam_hostile_srv(s) + gen.fam_hostile_cli(s)},
     "C04": {"level": "model_checking", "model_replay": (40, 400), "mc": {"quick": ["MC_err_close"], "thorough": ["MC_err_close", "MCT_one_close", "MCT_err_all2"]}, "also": ["C16_NoSuccessOnWrongCount"], "hang": True,
             "quick": lambda s: gen.fam_life(s, 5),
             "thorough": lambda s: gen.fam_life(s, 0) + gen.fam_gates(s, 0, faults=("close",))},
@@ -226,14 +244,15 @@ PROPS = {
             "thorough": lambda s: gen.fam_cancel(s, 0) + gen.fam_gates(s, 0, faults=("cancel",))},
     "C03": {"level": "model_checking", "hang": True, "mc": {"quick": ["MC_two_stepped"], "thorough": ["MC_two_stepped", "MCT_two_stepped_all"]},
             "quick": lambda s: gen.fam_indep(s, 8) + gen.fam_shutdown(s, 3, policies=("eager",))
-                               + gen.fam_gates(s, 4, gates=["cli.alloc", "car.sent.c2s.new", "srv.reject.emit"], faults=("cancel@park", "cancel")),
+                               + gen.fam_gates(s, 4, gates=["cli.alloc", "cli.tx.lock", "car.sent.c2s.new", "srv.reject.emit"], faults=("cancel@park", "cancel")),
             "thorough": lambda s: sum((gen.fam_indep(s + i, 0) for i in range(8)), []) + gen.fam_shutdown(s, 0) + gen.fam_gates(s, 0, faults=("cancel",))},
-    "C14": {"level": "model_checking", "snap": True, "hang": True,
+    "C14": {"level": "model_checking", "snap": True, "hang": True, "runner": run_c17,
+            "also": ["C12_RegistryMatches", "C12_Callbacks"],
             "quick": lambda s: gen.fam_life(s, 8, policies=("lazy", "slowcli"), causes=("close", "srvgone", "carfail", "stop"), fcs=("fc",))
                                + gen.fam_life(s, 2, policies=("eager",), fcs=("nofc",))
                                + gen.fam_cancel(s, 3, policies=("lazy", "slowcli")) + gen.fam_indep(s, 3, policies=("random",)),
             "thorough": lambda s: gen.fam_life(s, 0) + gen.fam_cancel(s, 0) + gen.fam_indep(s, 0) + gen.fam_gates(s, 4)},
-    "C02": {"level": "model_checking", "also": ["C16_NoSuccessOnWrongCount"],
+    "C02": {"level": "model_checking", "also": ["C16_NoSuccessOnWrongCount"], "race_extra": lambda s: gen.fam_free(s, 40),
             "quick": lambda s: gen.fam_meta(s, 160) + gen.fam_data(s, 24),
             "thorough": lambda s: sum((gen.fam_meta(s + i, 400, gated=(i == 0)) for i in range(4)), []) + gen.fam_data(s, 200)},
     "C16": {"level": "model_checking",
@@ -298,6 +317,12 @@ def run(pid, spec, tier, seed, replay=None):
         for s in scenarios:
             s["cfg"] = dict(s["cfg"], snap=True)
     d, traces, crashes = orch.execute(binary, scenarios, "%s-%s" % (pid, tier))
+    if not replay and spec.get("race_extra"):
+        # the same kind of executions free-running under the Go race detector (auxiliary monitor)
+        rb = orch.build_harness(race=True)
+        d2, t2, c2 = orch.execute(rb, spec["race_extra"](seed), "%s-%s-race" % (pid, tier))
+        traces = traces + t2
+        crashes = crashes + c2
     viols, lines, states = orch.validate(traces)
     n, distinct = orch.count_traces(traces)
     mc_states = mc_trans = 0
